@@ -471,3 +471,86 @@ Example quick_unfixed_refuted :
   snd (decode {| o_time := fun _ => true; o_ip := fun _ => true; o_addr := fun _ => true; o_b64 := fun _ => true |}
               (encode amp_entry)) = amp_entry.
 Proof. vm_compute. auto. Qed.
+
+(** ** The whole entry: statement and a worked instance *)
+
+(** The entries json.Marshal + decodeLogEntry are expected to return
+    unchanged: texts are well-formed UTF-8 and accepted by the Go parsers the
+    decoder calls, integers fit int64, the two by-design conversions of the
+    decoder are excluded (reason RewrittenAutoHosts with an IPList is turned
+    into a rewrite result by translateResult; a rewrite result with neither
+    response nor code is written as {} and read back as absent), rewrite
+    responses hold non-empty lists of strings under distinct keys < 65536. *)
+Definition int64_ok (z : Z) : Prop := (- 2 ^ 63 <= z < 2 ^ 63)%Z.
+
+Definition rule_dom (o : oracles) (r : crule) : Prop :=
+  utf8_ok (cr_text r) = true /\ (cr_ip r = [] \/ o_addr o (cr_ip r) = true) /\ utf8_ok (cr_ip r) = true /\
+  int64_ok (cr_id r).
+
+Definition rrv_dom (o : oracles) (k : Z) (v : rrv) : Prop :=
+  match v with
+  | RS s => utf8_ok s = true /\ ((k = 1 \/ k = 28)%Z -> o_ip o s = true)
+  | _ => False
+  end.
+
+Definition rw_dom (o : oracles) (w : rewrite) : Prop :=
+  int64_ok (rw_rcode w) /\ (rw_resp w <> [] \/ rw_rcode w <> 0%Z) /\
+  NoDup (map fst (rw_resp w)) /\
+  Forall (fun kv : Z * list rrv => (0 <= fst kv < 65536)%Z /\ snd kv <> [] /\ Forall (rrv_dom o (fst kv)) (snd kv))
+         (rw_resp w).
+
+Definition codec_dom (o : oracles) (e : centry) : Prop :=
+  List.length (ce_s e) = n_slots /\ List.length (ce_f e) = 3%nat /\ List.length (ce_i e) = 2%nat /\
+  Forall (fun s => utf8_ok s = true) (ce_s e) /\
+  o_time o (slot e sT) = true /\ valid_cp (slot e sCP) = true /\
+  (slot e sIP = [] \/ o_ip o (slot e sIP) = true) /\
+  o_b64 o (slot e sAns) = true /\ o_b64 o (slot e sOrig) = true /\
+  Forall int64_ok (ce_i e) /\
+  Forall (fun a => utf8_ok a = true /\ o_addr o a = true) (ce_iplist e) /\
+  Forall (rule_dom o) (ce_rules e) /\
+  ~ (ival e iReason = 10%Z /\ ce_iplist e <> []) /\
+  match ce_rw e with Some w => rw_dom o w | None => True end.
+
+Definition codec_roundtrip_statement : Prop :=
+  forall o e, codec_dom o e -> decode o (encode e) = (false, e).
+
+(** A worked instance over every part of the entry (rules with negative list
+    ids and addresses, IPList, rewrite result, all optional fields, escapes,
+    non-ASCII): premises satisfiable and the round trip exact. *)
+Definition all_true : oracles :=
+  {| o_time := fun _ => true; o_ip := fun s => negb (is_nil s); o_addr := fun s => negb (is_nil s); o_b64 := fun _ => true |}.
+
+Definition rich_entry : centry :=
+  {| ce_s := [B "2026-10-01T17:09:47.5+02:00"; B "a&b<c>.""q""\.example" ++ [208; 191; 226; 128; 168];
+              B "HTTPS"; B "IN"; B "1.2.3.0/24"; B "phone"; B "doh"; B "https://dns.example/q?a=1&b=2";
+              B "AAAB+/8="; B "Bw=="; B "2001:db8::1"; B "canon.example"; B "you<tube>"];
+     ce_f := [true; true; true]; ce_i := [(-837429)%Z; 9%Z];
+     ce_iplist := [B "5.6.7.8"; B "::2"];
+     ce_rules := [{| cr_text := B "||ads^$important"; cr_ip := []; cr_id := (-2)%Z |};
+                  {| cr_text := []; cr_ip := B "1.1.1.1"; cr_id := 0%Z |};
+                  {| cr_text := B "/re<g>&/"; cr_ip := B "::1"; cr_id := 1700000000%Z |}];
+     ce_rw := Some {| rw_rcode := 3%Z;
+                      rw_resp := [(1%Z, [RS (B "1.2.3.4"); RS (B "5.6.7.8")]); (16%Z, [RS (B "hello ""quoted""")]);
+                                  (28%Z, [RS (B "2001:db8::4")])] |} |}.
+
+Example codec_roundtrip_example :
+  decode all_true (encode rich_entry) = (false, rich_entry) /\
+  has_bs (read_json_value (encode rich_entry) pQH) = true /\
+  read_json_value (encode rich_entry) pIP = B "2001:db8::1" /\
+  read_json_value (encode rich_entry) pCID = B "phone".
+Proof. vm_compute. auto. Qed.
+
+Lemma rich_entry_dom : codec_dom all_true rich_entry.
+Proof.
+  unfold codec_dom, rule_dom, rw_dom, rrv_dom, int64_ok.
+  repeat match goal with
+  | |- _ /\ _ => split
+  | |- Forall _ _ => constructor
+  | |- NoDup _ => constructor
+  end; cbn; try reflexivity; try lia; try discriminate; auto;
+  try (intros [? ?]; discriminate); try (intros [?|[?|[]]]; discriminate); try (intros [?|[]]; discriminate); try tauto.
+  all: try (right; reflexivity). all: try (left; discriminate).
+  split; [lia|]. split; [left; discriminate|]. split.
+  - repeat constructor; cbn; intuition discriminate.
+  - repeat constructor; cbn; try lia; try discriminate; auto.
+Qed.
